@@ -332,3 +332,19 @@ Qed.
 
 Lemma no_rearm_init stages wmax : no_rearm_msgs (init_state stages wmax).
 Proof. intros r []. Qed.
+
+(* whole runs: completed statuses (workflow, stages, tasks) survive every run of non-suspending, non-jumping tasks *)
+From Stab.proofs Require Import EngineSteps.
+
+Theorem completed_survives_run_plain orc acts : forall s,
+  never_suspends orc -> never_jumps orc -> forallb plain acts = true -> no_rearm_msgs s ->
+  completed_kept s (run orc s acts).
+Proof.
+  unfold run. induction acts as [|a acts IH]; simpl; intros s Ns Nj Hp K; [apply completed_kept_refl|].
+  apply andb_true_iff in Hp. destruct Hp as [Ha Hr].
+  apply completed_kept_trans with (step orc s a).
+  - apply completed_kept_ext with (last (step_trace orc s a) s); [apply step_last|].
+    apply pairwise_completed_kept. apply commit_legal_nosuspend; [exact Ns|].
+    apply no_rearm_not_delivers_jump; assumption.
+  - apply IH; try assumption. apply no_rearm_step; assumption.
+Qed.
